@@ -532,6 +532,10 @@ class CalibTagRead:
             m = t.references[i]
         if m is None or m.is_text or m.data.dtype.kind == "b" or not (len(m.polynom_coefficients) or m.expansion_origin):
             return res(NOOP)
+        if multi and (m is t.positions or m is t.extents):
+            # the array read is also the multi-tag's positions / extents: clearing its calibration moves
+            # the region itself, so the two reads of the metamorphic oracle are not comparable
+            return res(NOOP)
         th = run.R(t, 0)
         ah = run.R(m, 0)
         fkey = i
